@@ -1,5 +1,6 @@
 """Shared helpers for the per-property obligation modules."""
 import os
+from vt.interp import PathsExceeded
 import time
 
 from vt import terms as T
@@ -63,6 +64,8 @@ def guard(fn):
             return fn(ctx)
         except (ModelError,) as e:
             return [Clause(cname, "undecided", "", "%s: %s" % (type(e).__name__, e))]
+        except PathsExceeded:
+            return [Clause(cname, "undecided", "", "engine limit: more execution paths than the exploration budget")]
         except RecursionError:
             return [Clause(cname, "undecided", "", "engine limit: term construction exceeded the recursion limit")]
         except (KeyError, AttributeError, TypeError, IndexError, ValueError) as e:
